@@ -25,6 +25,7 @@ GATES = ("nontrivial", "outcome.status:Optimal", "outcome.status:LocallyInfeasib
 def generate(rng, seed, index, tier):
     fam = str(rng.choice(["qp", "nlp", "infeasible", "unbounded", "degenerate", "domain", "zero-cons", "saddle"], p=[0.17, 0.17, 0.13, 0.13, 0.13, 0.05, 0.1, 0.12]))
     spec, x0, y0 = gen.gen_problem(rng, fam, fixed_prob=0.4)
+    x0 = gen.magnify(rng, spec, x0, p=0.12)
     x0, y0, sform = gen.start_forms(rng, spec, x0, y0, p=0.1)
     kw = gen.gen_params(rng, spec, x0, y0, p_knob=0.6, reporting=True, numeric=0.3)
     kw["iteration_limit"] = int(rng.choice([5, 50, 300, 1000], p=[0.15, 0.45, 0.25, 0.15]))
